@@ -10,25 +10,35 @@ let pid = "C17"
 let split c s = if s = "-" || s = "" then [] else String.split_on_char c s
 let opt_str f = if f = "~" then None else Some (str_of_field f)
 
-let parse_mail_table t =
+let addr_diverged = ref false
+
+let parse_mail_table pip t =
   List.map (fun e ->
     match String.split_on_char ':' e with
-    | [arg; m; hp; pok; size; oa; od] ->
+    | [arg; m; hp; pok; size; oa; od; g1] ->
+        (* the origin is computed by the address model from capture group 1 of the MAIL pattern;
+           the driver's own ParseOrigin answer (oa, od) is only cross-checked *)
+        let origin = match opt_str g1 with Some a when m = "1" -> origin_of pip a | _ -> None in
+        let impl_origin = (match opt_str oa, opt_str od with
+                        | Some a, Some d -> Some { o_addr = a; o_domain = d }
+                        | _ -> None) in
+        if m = "1" && origin <> impl_origin then addr_diverged := true;
         (str_of_field arg,
          { mf_match = (m = "1"); mf_has_params = (hp = "1"); mf_params_ok = (pok = "1");
            mf_size = opt_str size;
-           mf_origin = (match opt_str oa, opt_str od with
-                        | Some a, Some d -> Some { o_addr = a; o_domain = d }
-                        | _ -> None) })
+           mf_origin = origin })
     | _ -> failwith ("bad mail table entry " ^ e)) (split ',' t)
 
-let parse_rcpt_table t =
+let parse_rcpt_table pip mode t =
   List.map (fun e ->
     match String.split_on_char ':' e with
     | [addr; ok; a; d; mb] ->
-        (str_of_field addr,
-         if ok = "1" then Some { r_addr = str_of_field a; r_domain = str_of_field d; r_mailbox = str_of_field mb }
-         else None)
+        (* NewRecipient is computed by the address model; the driver's answer is cross-checked *)
+        let r = rcpt_of pip mode (str_of_field addr) in
+        let impl = if ok = "1" then Some { r_addr = str_of_field a; r_domain = str_of_field d; r_mailbox = str_of_field mb }
+         else None in
+        if r <> impl then addr_diverged := true;
+        (str_of_field addr, r)
     | _ -> failwith ("bad rcpt table entry " ^ e)) (split ',' t)
 
 let parse_list f =   (* "[a;b]" *)
@@ -130,7 +140,18 @@ let handle_smtp (kind : string) (ins : string list) (outs : string list) : bool 
         (match outs with
          | [replies; mt; rt; ht; dump; status] ->
              let (mh, rh, gh) = rules in
-             let o = { t_mail = parse_mail_table mt; t_rcpt = parse_rcpt_table rt; t_mail_hook = mh;
+             let (status, iptab) = match String.index_opt status ';' with
+               | Some i -> (String.sub status 0 i, String.sub status (i + 1) (String.length status - i - 1))
+               | None -> (status, "-") in
+             let tab = Hashtbl.create 16 in
+             List.iter (fun e -> match String.split_on_char '=' e with
+               | [k; v] -> Hashtbl.replace tab (Mlutil.unhex k) (v = "1") | _ -> ()) (split ',' iptab);
+             let ip_miss = ref false in
+             let pip (x : str) = match Hashtbl.find_opt tab (raw_of_str x) with
+               | Some v -> v | None -> ip_miss := true; false in
+             let mode = match naming with "full" -> Full | "domain" -> Domain | _ -> Local in
+             addr_diverged := false;
+             let o = { t_mail = parse_mail_table pip mt; t_rcpt = parse_rcpt_table pip mode rt; t_mail_hook = mh;
                        t_rcpt_hook = rh; t_hdr = parse_hdr_table ht; t_msg_hook = gh } in
              let impl_replies = String.split_on_char '|' replies in
              let par = kind = "luapar" in
@@ -187,7 +208,8 @@ let handle_smtp (kind : string) (ins : string list) (outs : string list) : bool 
              end;
              let mine = List.filter (fun s -> String.length s > 3 && String.sub s 0 3 = pid) !v in
              let verdict = if mine = [] then "ok" else "fail:" ^ String.concat ";" (List.rev mine) in
-             Mlutil.print_model [String.concat "|" (List.rev !m_replies); mt; rt; ht; norm (show_store !m_deliv); "ok"] verdict
+             let mstatus = if !ip_miss then "IPMISS" else if !addr_diverged then "ADDRESS-MODEL-DIVERGES-FROM-NewRecipient/ParseOrigin" else "ok" in
+             Mlutil.print_model [String.concat "|" (List.rev !m_replies); mt; rt; ht; norm (show_store !m_deliv); mstatus ^ ";" ^ iptab] verdict
          | _ -> Mlutil.print_model ["NO-OBSERVATION"] "fail:no-observation"); true in
   match ins with
   | [naming; maxr; maxb; da; acc; rej; ds; sto; dis; rejo; _store; stream] ->
